@@ -61,6 +61,12 @@ fn value_eq(expected: &MV, got: &Value) -> Option<(String, String)> {
     mv_diff(&expected.normalize(), &MV::from_value(got), &fl)
 }
 
+/// The deepest nesting of lists around an atom that a fresh parser accepts, measured on this tree.
+fn nesting_limit() -> usize {
+    static LIMIT: std::sync::OnceLock<usize> = std::sync::OnceLock::new();
+    *LIMIT.get_or_init(|| (1..=400usize).take_while(|d| lexpr::from_str(&format!("{}x{}", "(".repeat(*d), ")".repeat(*d))).is_ok()).last().unwrap_or(1))
+}
+
 fn check_seq(c: &Case) -> CaseResult {
     let (elisp, values, trivia, tail_comment) = match c {
         Case::Seq { elisp, values, trivia, tail_comment } => (*elisp, values, trivia, *tail_comment),
@@ -121,6 +127,39 @@ fn check_seq(c: &Case) -> CaseResult {
         if let Err(e) = parser.expect_end() {
             return Err(("seq expect_end-after-trivia".into(), format!("expect_end does not accept the trailing trivia of {:?}: {}", clip(&text, 300), e)));
         }
+        // whatever the values were, the parser that has read them is as good
+        // as new: a datum nested as deep as a fresh parser accepts (measured)
+        // is still accepted after them, by the value and by the datum API
+        let limit = nesting_limit();
+        let probe = format!("{}x{}", "(".repeat(limit), ")".repeat(limit));
+        let with_probe = format!("{}\n{}\n", text, probe);
+        for api in ["next_value", "next_datum", "next_value/reader"] {
+            let mut last: Result<Option<String>, String> = Ok(None);
+            let mut count = 0usize;
+            macro_rules! drive {
+                ($p:expr, $datum:expr) => {{
+                    let mut p = $p;
+                    for _ in 0..values.len() + 1 {
+                        last = if $datum { p.next_datum().map(|o| o.map(|d| d.value().to_string())).map_err(|e| e.to_string()) } else { p.next_value().map(|o| o.map(|v| v.to_string())).map_err(|e| e.to_string()) };
+                        count += 1;
+                        if !matches!(last, Ok(Some(_))) {
+                            break;
+                        }
+                    }
+                }};
+            }
+            match api {
+                "next_value" => drive!(Parser::from_str_custom(&with_probe, q.to_lexpr()), false),
+                "next_datum" => drive!(Parser::from_str_custom(&with_probe, q.to_lexpr()), true),
+                _ => drive!(Parser::from_reader_custom(std::io::Cursor::new(with_probe.as_bytes()), q.to_lexpr()), false),
+            }
+            if count != values.len() + 1 || last.as_ref().ok().and_then(|o| o.as_deref()) != Some(probe.as_str()) {
+                return Err((
+                    format!("seq probe-at-the-nesting-limit api={}", api),
+                    format!("after the {} values of {:?} the same parser does not read a datum nested {} levels (which a fresh parser accepts): item {} is {}", values.len(), clip(&text, 200), limit, count, clip(&short(&last), 120)),
+                ));
+            }
+        }
         Ok(())
     });
     match r {
@@ -170,6 +209,40 @@ fn check_trivia(c: &Case) -> CaseResult {
                 }
                 if mv_diff(&value.normalize(), &MV::from_value(&a), &float_ok).is_some() {
                     return Err(("trivia canonical-layout-misread".into(), format!("{:?} does not read as the value it spells: {}", clip(&canon.text, 200), short(&a))));
+                }
+                // the same datum in its alternative spellings (shorthands, bracket
+                // lists, `. ()`, padded delimiters), several times on one parser,
+                // then a datum at the measured nesting limit
+                let alt = layout(value, &q, LayoutCfg { trivia: 2, alt: true, ff: true }, choices);
+                let limit = nesting_limit();
+                let probe = format!("{}x{}", "(".repeat(limit), ")".repeat(limit));
+                let reps = 1 + choices.first().map_or(0, |c| (*c % 12) as usize);
+                let mut stream = String::new();
+                for _ in 0..reps {
+                    stream.push_str(&alt.text);
+                    stream.push('\n');
+                }
+                stream.push_str(&probe);
+                stream.push('\n');
+                for datum in [false, true] {
+                    let mut p = Parser::from_str_custom(&stream, q.to_lexpr());
+                    for i in 0..=reps {
+                        let item = if datum { p.next_datum().map(|o| o.map(|d| d.value().clone())) } else { p.next_value() };
+                        match item {
+                            Ok(Some(v)) if i < reps => {
+                                if mv_diff(&MV::from_value(&a), &MV::from_value(&v), &float_ok).is_some() {
+                                    return Err((format!("trivia alt-spelling value-changed api={}", if datum { "datum" } else { "value" }), format!("copy {} of {:?} reads as {} but the canonical spelling as {}", i + 1, clip(&alt.text, 200), short(&v), short(&a))));
+                                }
+                            }
+                            Ok(Some(v)) if v.to_string() == probe => {}
+                            other => {
+                                return Err((
+                                    format!("trivia {} api={}", if i < reps { "alt-spelling-rejected" } else { "probe-at-the-nesting-limit" }, if datum { "datum" } else { "value" }),
+                                    format!("item {} of a stream of {} copies of {:?} followed by a datum nested {} levels is {}", i + 1, reps, clip(&alt.text, 200), limit, clip(&short(&other.map_err(|e| e.to_string())), 120)),
+                                ))
+                            }
+                        }
+                    }
                 }
                 Ok(())
             }
